@@ -19,6 +19,10 @@ class C03(ProgProp):
     def fixed_cases(self, ctx):
         for c in super().fixed_cases(ctx):
             yield c
+        # > 255 constants and names, one statement per line (every operand beyond 255 starts a line with its EXTENDED_ARG)
+        many = "".join("v%d = %d\n" % (i, 1000 + i) for i in range(300)) + "def f():\n    return v299, v0\n"
+        for v in self.versions:
+            yield {"k": "prog", "v": v, "src": many}
         from vf.props import c09
         for name in sorted(c09.tables(rw.xd())):
             yield {"k": "family", "table": name}
